@@ -38,6 +38,12 @@ func (g G) Has(sub string) bool {
 // timer-free).
 func (g G) Parked() bool {
 	s := g.State
+	// in -race builds a goroutine inside time.Sleep is dumped as [semacquire]; it wakes up by itself
+	for _, f := range g.Frames {
+		if f == "time.Sleep" {
+			return false
+		}
+	}
 	switch {
 	case strings.HasPrefix(s, "sync."), strings.HasPrefix(s, "chan "), strings.HasPrefix(s, "semacquire"),
 		strings.HasPrefix(s, "select"):
@@ -277,7 +283,7 @@ func othersIdle(gs []G, self uint64) bool {
 		switch {
 		case g.State == "running":
 			running++ // the snapshotting goroutine itself
-		case g.State == "runnable", g.State == "syscall", g.State == "sleep":
+		case g.State == "runnable", g.State == "syscall", g.State == "sleep", g.Has("time.Sleep"):
 			if isSystem(g) {
 				continue
 			}
